@@ -191,6 +191,30 @@ type realPart interface {
 	Close()
 }
 
+// handoffPart streams a trace part through the real hand-off queue instead of createPartFileReaders.
+type handoffPart struct {
+	*trace.VerifC17SenderPart
+	root    string
+	release func()
+}
+
+func (h *handoffPart) StreamingPart(group, topic string) queue.StreamingPartData {
+	spd, release, err := h.VerifC17SenderPart.HandoffStreamingPart(filepath.Join(h.root, "handoff"), group, topic)
+	if err != nil {
+		panic("handoff: " + err.Error())
+	}
+	h.release = release
+	return spd
+}
+
+func (h *handoffPart) Close() {
+	if h.release != nil {
+		h.release()
+		h.release = nil
+	}
+	h.VerifC17SenderPart.Close()
+}
+
 // engineOf returns, for a real-handler mode, the sync topic, a data node and a sender part builder.
 func engineOf(mode string) (topic bus.Topic, open func(root string) (realNode, error),
 	build func(root string, id uint64, seed int64, series, points int) realPart, ok bool,
@@ -207,6 +231,13 @@ func engineOf(mode string) (topic bus.Topic, open func(root string) (realNode, e
 			func(root string) (realNode, error) { return stream.VerifC17OpenNode(root, c17Group) },
 			func(root string, id uint64, seed int64, series, points int) realPart {
 				return stream.VerifC17BuildPart(root, id, seed, series, points, c17MinTS)
+			}, true
+	case "trh":
+		// trace part replayed from the liaison's hand-off queue (data node was offline when the syncer ran)
+		return data.TopicTracePartSync,
+			func(root string) (realNode, error) { return trace.VerifC17OpenNode(root, c17Group) },
+			func(root string, id uint64, seed int64, series, points int) realPart {
+				return &handoffPart{VerifC17SenderPart: trace.VerifC17BuildPart(root, id, seed, series, points, c17MinTS), root: root}
 			}, true
 	case "trc":
 		return data.TopicTracePartSync,
